@@ -2,11 +2,14 @@
 // the offending setting.
 //
 // Sub-check "unpack-fault": a valid (configuration, type) pair with exactly one
-// fault injected at a known path; Unpack must fail with a ucfg.Error whose
-// message quotes exactly that path (and the source, if the value was loaded
-// with metadata).
+// fault injected at a known path; Unpack (and the typed getter of the
+// setting's kind) must fail with a ucfg.Error whose message ends in exactly
+// that path (and the source, if the value was loaded with metadata). The
+// faulted value is a literal or is delivered through variable expansion
+// (deliver_test.go), names and sources use hostile characters.
 // Sub-check "lowlevel" (lowlevel_test.go): faults hit through the getters,
-// Has, Remove, CountField, Set*, Child.
+// Has, Remove, CountField, Set*, Child, incl. planted reference faults of
+// every shape.
 package c14
 
 import (
@@ -41,7 +44,7 @@ type VStruct struct {
 // Validate rejects the zero value.
 func (v VStruct) Validate() error {
 	if v.N == 0 {
-		return errors.New("c14: n must not be zero")
+		return errors.New("c14: n must not be zero (0%, 'n')")
 	}
 	return nil
 }
@@ -54,7 +57,7 @@ type VPtr struct {
 // Validate rejects the zero value.
 func (v *VPtr) Validate() error {
 	if v.N == 0 {
-		return errors.New("c14: n must not be zero (ptr)")
+		return errors.New("c14: n must not be zero (ptr, 0%d)")
 	}
 	return nil
 }
@@ -124,6 +127,24 @@ type Case struct {
 	Wrap    bool      `json:"wrap,omitempty"`    // Move=key: unpack the outer config into struct{Pre T} instead of the child into T
 	After   bool      `json:"after,omitempty"`   // Inject=set and Move!="": inject into the moved child (else the fault is injected first and moved by the merge)
 	Meta    string    `json:"meta,omitempty"`    // MetaData source name ("" = none)
+	Deliver *Delivery `json:"deliver,omitempty"` // how the faulted value reaches its place (nil: it is a literal of the configuration)
+	Ref     *RefFault `json:"ref,omitempty"`     // kind reference: the shape of the unresolvable reference
+	Getter  bool      `json:"getter,omitempty"`  // also read the faulted setting through the typed getter of its kind (Child for objects)
+	NoRes   bool      `json:"nores,omitempty"`   // read without a resolver (unless the delivery needs one)
+	GIdx    bool      `json:"gidx,omitempty"`    // getter: address a list element as (name of the list, idx) instead of by a numeric last segment
+	SetMeta string    `json:"setmeta,omitempty"` // Inject=set, fault kinds that store a value: "" the Set* call names the same source as the configuration | other: another source | none: no MetaData
+	Outer   bool      `json:"outer,omitempty"`   // Move != "": the configuration merged into was loaded from another source
+}
+
+const (
+	setSource   = "set's 100%.yml"
+	outerSource = "outer%v.yml"
+)
+
+// storesValue: the fault is a value put at the fault path (its source is
+// that of the call that stored it).
+func storesValue(kind string) bool {
+	return kind == kUnparsable || kind == kRange || kind == kWrongPrim || kind == kWrongCont
 }
 
 // ---------------------------------------------------------------------------
@@ -216,7 +237,7 @@ func collectFields(st *gen.TD, tv *gen.TV, path []string, tagOK bool, ft feat, o
 			continue
 		}
 		fft := ft
-		segs := strings.Split(f.ConfigName(), ".")
+		segs := strings.Split(cfgName(f), ".")
 		if len(segs) > 1 {
 			fft.dotted = true
 		}
@@ -447,15 +468,15 @@ func rangePayloads(base string) []*gen.Tree {
 func unparsablePayloads(base string) []string {
 	switch {
 	case isIntBase(base), isUintBase(base):
-		return []string{"zz!", "1.5", "", "12a"}
+		return []string{"zz!", "1.5", "", "12a", "90%", "%d"}
 	case isFloatBase(base):
-		return []string{"zz!", "", "1.5.2"}
+		return []string{"zz!", "", "1.5.2", "99.9%", "%!f(x)"}
 	case base == "bool":
-		return []string{"zz!", "", "2"}
+		return []string{"zz!", "", "2", "%t", "it's"}
 	case base == "dur":
-		return []string{"1 parsec", "", "abc", "5"}
+		return []string{"1 parsec", "", "abc", "5", "90%", "5%s", "1 'h'"}
 	case base == "regexp":
-		return []string{"(", "[a"}
+		return []string{"(", "[a", "(%", "[%d", "%v)"}
 	}
 	return nil
 }
@@ -572,6 +593,10 @@ func genCase(t *rapid.T) Case {
 		c.T = &gen.TD{Kind: "struct", Fields: []gen.FD{{Name: "V", Tag: "v", T: &gen.TD{Kind: "int"}}, f}}
 		c.V = &gen.TV{Elems: []*gen.TV{{I: 1}, fv}}
 	}
+	if rapid.IntRange(0, 2).Draw(t, "hostile") > 0 {
+		counter := 100
+		hostileNames(t, c.T, c.V, &counter)
+	}
 	fixValues(c.T, c.V, false)
 
 	sites := sitesOf(c.T, c.V)
@@ -590,7 +615,8 @@ func genCase(t *rapid.T) Case {
 			avail = append(avail, k)
 		}
 	}
-	c.Meta = rapid.SampledFrom([]string{"", "file.yml", "my src"}).Draw(t, "meta")
+	c.Meta = rapid.SampledFrom(metaPool).Draw(t, "meta")
+	c.NoRes = rapid.IntRange(0, 3).Draw(t, "nores") == 0
 	c.Move = rapid.SampledFrom([]string{"", "", "key", "list", "append", "prepend"}).Draw(t, "move")
 	if c.Move == "key" {
 		c.Wrap = rapid.Bool().Draw(t, "wrap")
@@ -629,6 +655,7 @@ func genCase(t *rapid.T) Case {
 		c.Payload = rapid.SampledFrom(primPayloads).Draw(t, "prim").Clone()
 	case kRef:
 		c.Payload = gen.Str(rapid.SampledFrom(refPayloads).Draw(t, "ref"))
+		c.Ref = &RefFault{Shape: rapid.SampledFrom(refShapes).Draw(t, "refshape"), Splice: rapid.IntRange(0, 3).Draw(t, "refsplice") == 0}
 		c.Inject = "data" // Set* does not parse variable expressions
 		c.After = false
 		fixValues(c.T, c.V, true)
@@ -640,8 +667,30 @@ func genCase(t *rapid.T) Case {
 		c.Shrink = s.td.N > 0 && rapid.Bool().Draw(t, "shrink")
 		c.Payload = gen.Uint(1)
 	}
+	// delivery through variable expansion: the faulted value, or a collection
+	// around it, is the result of evaluating a ${...} expression
+	if c.Kind != kRef && rapid.IntRange(0, 9).Draw(t, "deliver") < 4 {
+		d := genDelivery(t, len(c.Path))
+		if (c.Kind == kRequired || c.Kind == kDefault) && d.Up == 0 {
+			d.Up = 1 // a removed setting can only be missing from a delivered collection
+		}
+		if d.Up < len(c.Path) {
+			c.Deliver = d
+			c.Inject = "data"
+			c.After = false
+			fixValues(c.T, c.V, true)
+		}
+	}
+	c.Getter = rapid.Bool().Draw(t, "getter")
+	c.GIdx = rapid.Bool().Draw(t, "gidx")
+	if c.Inject == "set" && storesValue(c.Kind) {
+		c.SetMeta = rapid.SampledFrom([]string{"", "other", "other", "none"}).Draw(t, "setmeta")
+	}
+	c.Outer = c.Move != "" && rapid.IntRange(0, 2).Draw(t, "outer") > 0
 	return c
 }
+
+var metaPool = []string{"", "file.yml", "my src", "file.yml", "100%.yml", "it's.yml", `c:\x "q".yml`, "é{}$%d.yml", "%v", "a (source:'b')"}
 
 // ---------------------------------------------------------------------------
 // building the faulted configuration
@@ -824,11 +873,29 @@ var errNoVar = errors.New("c14: no such variable")
 // finding D8 (no resolver configured: missing references become "").
 func failingResolver(string) (string, parse.Config, error) { return "", parse.DefaultConfig, errNoVar }
 
+func staticPrefix(move string) []string {
+	switch move {
+	case "":
+		return nil
+	case "key":
+		return []string{"pre"}
+	}
+	return []string{"pre", "1"}
+}
+
 // build creates the configuration to unpack: the value normalised, optionally
-// dumped and normalised again, the fault injected (if fault is set), then
-// moved into another configuration. It returns the config to unpack from and
-// the path prefix the move added.
-func build(c *Case, s *site, fault bool) (*ucfg.Config, []string, error) {
+// dumped and normalised again, the fault injected (if fault is set), the
+// faulted value (or a collection around it) optionally replaced by a variable
+// expression that evaluates to it, then moved into another configuration. It
+// returns the config to unpack from, the path prefix the move added and what
+// the reading call needs (resolver variables, Env configuration).
+func build(c *Case, s *site, fault bool) (*ucfg.Config, []string, *artifacts, error) {
+	art := newArtifacts()
+	cfg, prefix, err := buildCfg(c, s, fault, art)
+	return cfg, prefix, art, err
+}
+
+func buildCfg(c *Case, s *site, fault bool, art *artifacts) (*ucfg.Config, []string, error) {
 	opts := []ucfg.Option{ucfg.PathSep(".")}
 	if c.Meta != "" {
 		opts = append(opts, ucfg.MetaData(ucfg.Meta{Source: c.Meta}))
@@ -848,19 +915,49 @@ func build(c *Case, s *site, fault bool) (*ucfg.Config, []string, error) {
 		}
 		nopts := opts
 		if fault {
-			if data, err = injectData(data, c, s); err != nil {
+			if c.Kind == kRef && c.Ref != nil {
+				expr, aux, _ := refFaultExpr(c.Ref, c.Payload, staticPrefix(c.Move), c.Path)
+				if data, err = editData(data, c.Path, func(interface{}, bool) (interface{}, bool) { return expr, false }); err != nil {
+					return nil, nil, err
+				}
+				root, ok := data.(map[string]interface{})
+				if !ok {
+					return nil, nil, errDiscard{"data walk: root is no dictionary"}
+				}
+				for k, v := range aux {
+					root[k] = v
+				}
+			} else if data, err = injectData(data, c, s); err != nil {
 				return nil, nil, err
 			}
-			if c.Kind == kRef {
-				nopts = append(append([]ucfg.Option{}, opts...), ucfg.VarExp)
+		}
+		if c.Deliver != nil {
+			if data, err = applyDelivery(data, c, staticPrefix(c.Move), art); err != nil {
+				return nil, nil, err
 			}
+		}
+		if (fault && c.Kind == kRef) || c.Deliver != nil {
+			nopts = append(append([]ucfg.Option{}, opts...), ucfg.VarExp)
 		}
 		if cfg, err = ucfg.NewFrom(data, nopts...); err != nil {
 			return nil, nil, fmt.Errorf("NewFrom(data): %v", err)
 		}
 	}
+	// the Set* calls and the configuration merged into may name other sources
+	sopts := opts
+	if storesValue(c.Kind) {
+		switch c.SetMeta {
+		case "other":
+			sopts = []ucfg.Option{ucfg.PathSep("."), ucfg.MetaData(ucfg.Meta{Source: setSource})}
+		case "none":
+			sopts = []ucfg.Option{ucfg.PathSep(".")}
+		}
+	}
+	if c.Outer {
+		opts = []ucfg.Option{ucfg.PathSep("."), ucfg.MetaData(ucfg.Meta{Source: outerSource})}
+	}
 	setFault := func(into *ucfg.Config) error {
-		err := injectSet(into, c, s, opts)
+		err := injectSet(into, c, s, sopts)
 		if _, ok := err.(errDiscard); ok || err == nil {
 			return err
 		}
@@ -942,46 +1039,89 @@ func build(c *Case, s *site, fault bool) (*ucfg.Config, []string, error) {
 // oracle
 
 // the setting named by a message: "... accessing '<path>'" or "... in field
-// '<path>'", optionally followed by the source (error.go).
-var namedRe = regexp.MustCompile(`(?s)(?: accessing| in field) '([^']*)'( \(source:'[^']*'\))?$`)
+// '<path>'", optionally followed by the source (error.go). Used for
+// diagnostics only: names may contain quotes, the assertion compares the end
+// of the message with the expected text.
+var namedRe = regexp.MustCompile(`(?s)(?: accessing| in field) '(.*?)'( \(source:'.*'\))?$`)
 
-// checkError verifies that err is a typed error naming path (and source).
-func checkError(err error, path string, source string) error {
+// expect is one acceptable naming of the setting at fault: its full dotted
+// path and the acceptable endings after it ("" and/or " (source:'<name>')").
+type expect struct {
+	path  string
+	tails []string
+}
+
+// tailsFor: what may follow the path. A value loaded with source metadata
+// must be reported with its source if demanded; otherwise both are accepted.
+func tailsFor(source string, demanded bool) []string {
+	if source == "" {
+		return []string{""}
+	}
+	t := " (source:'" + source + "')"
+	if demanded {
+		return []string{t}
+	}
+	return []string{t, ""}
+}
+
+// checkTyped verifies the first clause: a ucfg.Error with Reason and Class.
+func checkTyped(err error) (ucfg.Error, error) {
 	ue, ok := err.(ucfg.Error)
 	if !ok {
-		return fmt.Errorf("error is no ucfg.Error but %T: %v", err, err)
+		return nil, fmt.Errorf("error is no ucfg.Error but %T: %v", err, err)
 	}
 	if ue.Reason() == nil {
-		return fmt.Errorf("Reason() of the error is nil: %v", err)
+		return nil, fmt.Errorf("Reason() of the error is nil: %v", err)
 	}
 	if ue.Class() == nil {
-		return fmt.Errorf("Class() of the error is nil: %v", err)
+		return nil, fmt.Errorf("Class() of the error is nil: %v", err)
 	}
-	if path == "" {
-		return nil
+	return ue, nil
+}
+
+// checkNamed verifies that err is a typed error whose message ends in
+// accessing|in field '<path>'<tail> for one of the acceptable namings.
+func checkNamed(err error, alts []expect) error {
+	ue, terr := checkTyped(err)
+	if terr != nil {
+		return terr
 	}
 	msg := ue.Error()
 	if i := strings.Index(msg, "\nTrace:"); i >= 0 {
 		msg = msg[:i]
 	}
-	m := namedRe.FindStringSubmatch(msg)
-	if m == nil {
-		return fmt.Errorf("the message names no setting (want '%s'): %q", path, msg)
+	for _, a := range alts {
+		for _, intro := range []string{" accessing '", " in field '"} {
+			for _, tail := range a.tails {
+				if strings.HasSuffix(msg, intro+a.path+"'"+tail) {
+					if p := ue.Path(); p != "" && p != a.path {
+						return fmt.Errorf("Path() of the error is %q, the fault is at %q: %q", p, a.path, msg)
+					}
+					return nil
+				}
+			}
+		}
 	}
-	if m[1] != path {
-		return fmt.Errorf("the message names '%s', the fault is at '%s': %q", m[1], path, msg)
+	want := alts[0]
+	// explain: right path with the wrong ending, or another path
+	for _, intro := range []string{" accessing '", " in field '"} {
+		if i := strings.LastIndex(msg, intro+want.path+"'"); i >= 0 {
+			return fmt.Errorf("the message names '%s' but ends in %q, want %q: %q", want.path, msg[i+len(intro)+len(want.path)+1:], want.tails, msg)
+		}
 	}
-	if p := ue.Path(); p != "" && p != path {
-		return fmt.Errorf("Path() of the error is %q, the fault is at %q: %q", p, path, msg)
+	if m := namedRe.FindStringSubmatch(msg); m != nil {
+		return fmt.Errorf("the message names '%s', the fault is at '%s': %q", m[1], want.path, msg)
 	}
-	if source != "" && !strings.Contains(msg, "(source:'"+source+"')") {
-		return fmt.Errorf("the message lacks the source (source:'%s'): %q", source, msg)
-	}
-	return nil
+	return fmt.Errorf("the message names no setting (want '%s'): %q", want.path, msg)
 }
 
-func unpackOpts() []ucfg.Option {
-	return []ucfg.Option{ucfg.PathSep("."), ucfg.Resolve(failingResolver)}
+// checkError verifies that err is a typed error naming path (and source).
+func checkError(err error, path string, source string) error {
+	if path == "" {
+		_, terr := checkTyped(err)
+		return terr
+	}
+	return checkNamed(err, []expect{{path, tailsFor(source, true)}})
 }
 
 func targetType(td *gen.TD, wrap bool) reflect.Type {
@@ -989,6 +1129,52 @@ func targetType(td *gen.TD, wrap bool) reflect.Type {
 		return td.Type()
 	}
 	return reflect.StructOf([]reflect.StructField{{Name: "Pre", Type: td.Type(), Tag: `config:"pre"`}})
+}
+
+// getterOp names the low-level getter that can not succeed on the faulted
+// setting ("" if the fault is not visible to a getter).
+func getterOp(s *site, kind string) string {
+	switch kind {
+	case kWrongPrim:
+		return "child"
+	case kUnparsable, kWrongCont, kRef:
+		if s.node != "leaf" {
+			return ""
+		}
+		switch b := s.td.Base(); {
+		case b == "bool":
+			return "bool"
+		case isIntBase(b):
+			return "int"
+		case isUintBase(b):
+			return "uint"
+		case isFloatBase(b):
+			return "float"
+		case kind != kUnparsable:
+			return "string" // strings, durations and regular expressions are read as strings
+		}
+	}
+	return ""
+}
+
+func callGetter(cfg *ucfg.Config, op, name string, idx int, opts []ucfg.Option) (err error) {
+	switch op {
+	case "bool":
+		_, err = cfg.Bool(name, idx, opts...)
+	case "int":
+		_, err = cfg.Int(name, idx, opts...)
+	case "uint":
+		_, err = cfg.Uint(name, idx, opts...)
+	case "float":
+		_, err = cfg.Float(name, idx, opts...)
+	case "string":
+		_, err = cfg.String(name, idx, opts...)
+	case "child":
+		_, err = cfg.Child(name, idx, opts...)
+	default:
+		err = fmt.Errorf("harness: unknown getter %q", op)
+	}
+	return err
 }
 
 func runCase(c Case, r *runlog.R) error {
@@ -1026,20 +1212,40 @@ func runCase(c Case, r *runlog.R) error {
 		}
 		s.fd.Validate = c.Tag // s.fd points into td, the private copy
 	}
+	if c.Deliver != nil && c.Inject != "data" {
+		r.Class("stale delivery")
+		r.Discard()
+		return nil
+	}
 
-	// precondition: without the fault the pair is valid. If the fault is the
-	// removal of a required setting, the tag is part of the valid pair (it
-	// applies to every instance of the field).
+	// precondition: without the fault the pair is valid, delivered the same
+	// way. If the fault is the removal of a required setting, the tag is part
+	// of the valid pair (it applies to every instance of the field).
 	baseT := c.T
 	if c.Kind == kRequired && !s.absent {
 		baseT = td
 	}
-	base, _, err := build(&c, s, false)
+	discard := func(err error) bool {
+		if d, ok := err.(errDiscard); ok {
+			r.Class("discard: " + strings.SplitN(d.why, ":", 2)[0])
+			r.Discard()
+			return true
+		}
+		return false
+	}
+	base, _, bart, err := build(&c, s, false)
 	if err == nil {
-		out := reflect.New(targetType(baseT, c.Wrap && c.Move == "key"))
-		err = uc.Safe("Unpack", func() error { return base.Unpack(out.Interface(), unpackOpts()...) })
+		var bopts []ucfg.Option
+		if bopts, err = readOpts(bart, c.NoRes); err == nil {
+			out := reflect.New(targetType(baseT, c.Wrap && c.Move == "key"))
+			err = uc.Safe("Unpack", func() error { return base.Unpack(out.Interface(), bopts...) })
+		}
 	}
 	if err != nil {
+		if discard(err) {
+			return nil
+		}
+		r.ClassIf(c.Deliver != nil, "discard: delivered pair invalid without the fault")
 		r.Class("discard: pair invalid without the fault")
 		r.Discard()
 		return nil
@@ -1047,39 +1253,106 @@ func runCase(c Case, r *runlog.R) error {
 
 	var cfg *ucfg.Config
 	var prefix []string
-	err = uc.Safe("building the faulted configuration", func() (e error) { cfg, prefix, e = build(&c, s, true); return })
+	var art *artifacts
+	err = uc.Safe("building the faulted configuration", func() (e error) { cfg, prefix, art, e = build(&c, s, true); return })
 	if err != nil {
-		if d, ok := err.(errDiscard); ok {
-			r.Class("discard: " + strings.SplitN(d.why, ":", 2)[0])
-			r.Discard()
+		if discard(err) {
 			return nil
 		}
 		// the fault may be rejected while the configuration is built; that is
 		// a failure reported by the API as well
 		return fmt.Errorf("building the configuration with the fault failed: %v", err)
 	}
+	opts, err := readOpts(art, c.NoRes)
+	if err != nil {
+		return err
+	}
 
 	want := strings.Join(append(append([]string{}, prefix...), c.Path...), ".")
+	// The source is demanded for a setting that was loaded with metadata. A
+	// setting that is missing was not loaded from anywhere, and the elements
+	// of a collection parsed from delivered text were not loaded either (the
+	// ${...} setting itself, Up == 0, was).
+	demand := c.Kind != kRequired && c.Kind != kDefault
+	alts := []expect{{want, tailsFor(c.Meta, demand)}}
+	if !demand && c.Outer {
+		alts[0].tails = append(alts[0].tails, tailsFor(outerSource, false)...) // nothing is demanded
+	}
+	if c.Inject == "set" && storesValue(c.Kind) {
+		// the faulted value was stored by a Set* call: its source is the one
+		// named by that call; stored without MetaData it has none (then
+		// nothing is demanded)
+		switch c.SetMeta {
+		case "other":
+			alts[0].tails = tailsFor(setSource, true)
+		case "none":
+			alts[0].tails = tailsFor(c.Meta, false)
+		}
+	}
+	if d := c.Deliver; d != nil {
+		switch d.Mode {
+		case "resolver", "splice":
+			alts[0].tails = tailsFor(c.Meta, demand && d.Up == 0)
+		case "cfgref", "env":
+			// two settings are involved: the one that was read and the one
+			// holding the literal; the statement does not say which is "that
+			// setting", both (each with its own source) are accepted
+			alts = append(alts, expect{strings.Join(art.alt, "."), tailsFor(art.altSrc, demand)})
+		}
+	}
+	describe := func() string {
+		d := "literal"
+		if c.Deliver != nil {
+			d = fmt.Sprintf("%s up=%d text=%q", c.Deliver.Mode, c.Deliver.Up, art.text)
+		}
+		ref := ""
+		if c.Ref != nil {
+			ref = fmt.Sprintf(" ref=%s splice=%v", c.Ref.Shape, c.Ref.Splice)
+		}
+		return fmt.Sprintf("fault %s at '%s' (inject=%s move=%s wrap=%v after=%v meta=%q payload=%v tag=%q delivery=%s%s nores=%v setmeta=%q outer=%v)", c.Kind, want, c.Inject, c.Move, c.Wrap, c.After, c.Meta, show(c.Payload), c.Tag, d, ref, c.NoRes, c.SetMeta, c.Outer)
+	}
+
 	typ := targetType(td, c.Wrap && c.Move == "key")
 	out := reflect.New(typ)
-	uerr := uc.Safe("Unpack", func() error { return cfg.Unpack(out.Interface(), unpackOpts()...) })
+	uerr := uc.Safe("Unpack", func() error { return cfg.Unpack(out.Interface(), opts...) })
 	if uerr == nil {
-		return fmt.Errorf("fault %s at '%s' not reported: Unpack returned nil\n type %v\n case kind=%s payload=%v tag=%q", c.Kind, want, typ, c.Kind, show(c.Payload), c.Tag)
+		return fmt.Errorf("fault not reported: Unpack returned nil\n %s\n type %v", describe(), typ)
 	}
 	if strings.Contains(uerr.Error(), "panicked") && !isTyped(uerr) {
 		return uerr
 	}
-	// a setting that is missing was not loaded from anywhere: no source demanded
-	source := c.Meta
-	if c.Kind == kRequired || c.Kind == kDefault {
-		source = ""
+	if err := checkNamed(uerr, alts); err != nil {
+		return fmt.Errorf("Unpack: %v\n %s\n type %v", err, describe(), typ)
 	}
-	if err := checkError(uerr, want, source); err != nil {
-		return fmt.Errorf("%v\n fault %s at '%s' (inject=%s move=%s wrap=%v after=%v meta=%q payload=%v tag=%q)\n type %v", err, c.Kind, want, c.Inject, c.Move, c.Wrap, c.After, c.Meta, show(c.Payload), c.Tag, typ)
+
+	// the same fault read through the typed getter of the setting's kind
+	if op := getterOp(s, c.Kind); c.Getter && op != "" {
+		segs := c.Path
+		if c.Wrap && c.Move == "key" {
+			segs = append(append([]string{}, prefix...), c.Path...) // build returned the outer configuration
+		}
+		idx := -1
+		if n, err := strconv.Atoi(segs[len(segs)-1]); c.GIdx && err == nil && n >= 0 && len(segs) > 1 && s.ft.list {
+			segs, idx = segs[:len(segs)-1], n // an element of a list: (name of the list, idx)
+			r.Class("getter addressed by name and idx")
+		}
+		name := strings.Join(segs, ".")
+		var gerr error
+		if perr := uc.Safe("getter", func() error { gerr = callGetter(cfg, op, name, idx, opts); return nil }); perr != nil {
+			return fmt.Errorf("%v\n %s", perr, describe())
+		}
+		if gerr == nil {
+			r.Class("getter " + op + " accepts the faulted value")
+		} else {
+			if err := checkNamed(gerr, alts); err != nil {
+				return fmt.Errorf("getter %s(%q): %v\n %s", op, name, err, describe())
+			}
+			r.Class("also read through getter " + op)
+		}
 	}
 
 	moved := c.Move != ""
-	r.NonTrivialIf(len(c.Path) >= 2 || s.ft.list || s.ft.mapk || s.ft.ptr || s.ft.inline || moved)
+	r.NonTrivialIf(len(c.Path) >= 2 || s.ft.list || s.ft.mapk || s.ft.ptr || s.ft.inline || moved || c.Deliver != nil)
 	r.Class("kind=" + c.Kind)
 	r.Class("node=" + s.node)
 	r.Class("inject=" + c.Inject)
@@ -1102,6 +1375,49 @@ func runCase(c Case, r *runlog.R) error {
 	if ue, ok := uerr.(ucfg.Error); ok && ue.Trace() != "" {
 		r.Class("critical error (with trace)")
 	}
+	// names, texts, sources
+	pct, quote, other := hostileClasses(c.Path)
+	r.ClassIf(pct, "name with %")
+	r.ClassIf(quote, "name with quote")
+	r.ClassIf(other, "name with other special characters")
+	r.ClassIf(pct && c.Meta != "", "name with % and metadata")
+	reasonPct := false
+	if ue, ok := uerr.(ucfg.Error); ok {
+		if m := ue.Message(); !pct {
+			if i := strings.LastIndex(m, "'"+want+"'"); i >= 0 {
+				reasonPct = strings.Contains(m[:i], "%")
+			}
+		}
+	}
+	r.ClassIf(reasonPct && c.Meta != "", "% in the message text (not the name) and metadata")
+	r.ClassIf(strings.ContainsAny(c.Meta, "%'\"{}$"), "source name with special characters")
+	// delivery
+	if d := c.Deliver; d != nil {
+		r.Class("delivery=" + d.Mode)
+		r.Class(fmt.Sprintf("delivery up=%d", d.Up))
+		text := d.Mode == "resolver" || d.Mode == "splice"
+		r.ClassIf(text && d.Up > 0, "fault inside a collection parsed from delivered text")
+		r.ClassIf(text && d.Up > 0 && c.Meta != "", "fault inside a collection parsed from delivered text, with metadata")
+		r.ClassIf(text && d.Up == 0, "faulted setting is itself parsed from delivered text")
+		if d.Mode == "splice" {
+			_, via := cutText(art.text, d.Pieces)
+			for _, v := range via {
+				r.Class("splice piece via " + v)
+			}
+		}
+	} else {
+		r.Class("delivery=literal")
+	}
+	if c.Kind == kRef && c.Ref != nil {
+		_, _, shape := refFaultExpr(c.Ref, c.Payload, prefix, c.Path)
+		r.Class("reference fault=" + shape)
+		r.ClassIf(c.Ref.Splice, "reference fault inside a splice")
+	}
+	r.ClassIf(c.NoRes && len(art.res) == 0, "read without resolver")
+	r.ClassIf(c.Outer, "merged into a configuration from another source")
+	if c.Inject == "set" && storesValue(c.Kind) && c.SetMeta != "" {
+		r.Class("value stored by Set* with source: " + c.SetMeta)
+	}
 	return nil
 }
 
@@ -1116,11 +1432,11 @@ func show(t *gen.Tree) string {
 
 var subFault = runlog.Register(&runlog.Sub[Case]{
 	Name: "unpack-fault",
-	Rule: "random struct type (reflect.StructOf: all primitive kinds, named variants, durations, regexps, pointers, slices, arrays, maps, nested/inline structs, dotted and derived config names, two catalogue structs with Validate) and a valid value of it; value -> NewFrom gives a valid (config, type) pair (checked: the pair unpacks). ONE fault at a place chosen from the type descriptor: unparsable string, out-of-range number, object/list for a primitive, primitive for an object, unresolvable ${ref} (VarExp), failing validate tag, required tag on a removed/nil setting, wrong fixed-array length, removed struct setting whose default fails Validate. Injected through Set*/SetChild/Remove or by editing the generic dump and normalising again; optionally merged below a key / into a list / appended / prepended first; with and without MetaData. Unpack must return a ucfg.Error with Reason and Class whose message ends in accessing|in field '<path>' [(source:'<name>')] with the path computed from the descriptor. Non-trivial: path depth >= 2, or below list/map/pointer/inline field, or moved by a merge. Distinct: hash of the case.",
+	Rule: "random struct type (reflect.StructOf: all primitive kinds, named variants, durations, regexps, pointers, slices, arrays, maps, nested/inline structs, dotted and derived config names, two catalogue structs with Validate) and a valid value of it; in 2/3 of the cases a third of the config names and map keys are replaced by names with format verbs (%, %d, %!v(x)), quotes, braces, blanks, tabs, backslashes, '$' and non-ASCII letters. value -> NewFrom gives a valid (config, type) pair (checked: the pair unpacks). ONE fault at a place chosen from the type descriptor: unparsable string (incl. texts with % that the reason echoes), out-of-range number, object/list for a primitive, primitive for an object, unresolvable reference (VarExp: missing variable, index out of range, self cycle, cycles of length 2 and 3 through auxiliary settings, reference into a cycle, path through a primitive, chain ending in a missing variable, ${x:?message}; plain or inside a splice; read with a resolver that knows nothing or without resolver), failing validate tag, required tag on a removed/nil setting, wrong fixed-array length, removed struct setting whose default fails Validate. Injected through Set*/SetChild/Remove (the Set* call naming the same source, another source or none) or by editing the generic dump and normalising again. DELIVERY (40% of the non-reference faults): the faulted value, or a collection 1..n levels above it with the fault inside, is replaced by a ${...} expression that evaluates to it at read time: reference to a literal elsewhere in the configuration, value of an Env configuration, text returned by a resolver (parse.DefaultConfig, EnvConfig or IgnoreCommas), text spliced from 1-4 pieces each of which is literal text, a resolver variable, an Env value, a ${missing:default} or a reference to a string literal; the text is rendered in JSON, single-quoted, bare-word or comma-list style and checked to parse back into the same data. Optionally merged below a key / into a list / appended / prepended first, into a configuration loaded from the same or another source; with and without MetaData (source names incl. %, quotes, braces). Unpack - and, for half of the cases where a typed getter can not succeed on the faulted setting (Bool/Int/Uint/Float/String by target kind, Child for objects; list elements addressed by numeric segment or by idx), that getter - must return a ucfg.Error with Reason and Class whose message ENDS in accessing|in field '<path>'<source> with the full dotted path computed from the descriptor and <source> = (source:'<name>') of the call that loaded the faulted value. The source is demanded for values loaded with MetaData (also after merges into a configuration from another source, and for the ${...} setting itself when it expands to the faulted value); it is optional for missing settings, for values stored by Set* without MetaData and for elements inside a collection parsed from delivered text. For a reference to a literal / Env value both the setting that was read and the setting holding the literal (each with its own source) are accepted. Non-trivial: path depth >= 2, or below list/map/pointer/inline field, or moved by a merge, or delivered through an expression. Distinct: hash of the case.",
 	Gen:  genCase,
 	Run:  runCase,
 })
 
-func TestUnpackFault(t *testing.T) { subFault.Check(t, 120000, 3000000) }
+func TestUnpackFault(t *testing.T) { subFault.Check(t, 100000, 3000000) }
 
 func TestReplay(t *testing.T) { runlog.ReplayMain(t) }
